@@ -203,6 +203,10 @@ def make_project(rng, root, truth, prestates, method=False, rich=False, kinds=KI
                                     same_names=tuple(n for n in ir["params"] if not n.endswith("kwargs")))
         use_ir = stale_ir if state == "stale" else ir
         lines = list(before)
+        if state != "absent" and rich and not is_method and rng.random() < 0.25:
+            # optional-dependency idiom: the target's own name is first tried as an import (an import alias carries that name)
+            lines = ["try:", "    from zq_legacy.settings import zq_old_helper, {}".format(name), "except ImportError:", "    pass", ""] + lines
+            feats["{}_name_imported_before_definition".format("extra" if is_extra else kind)] = True
         func_before = any(l.startswith("def ") for l in before) or any(l.startswith("    def ") for l in before)
         if state != "absent":
             src = definition_src(kind, use_ir, name=name, method=is_method)
